@@ -78,6 +78,16 @@ Odd(a, c) distinct :- Even(a, b), E(b, c);
 Even(a, c) distinct :- Odd(a, b), E(b, c);
 Out(a, b) :- TC(a, b), Odd(a, b) | Even(a, b);
 ''', 'Out', 'recursion')
+  add('recursion_equal_length_names', '''@Engine("sqlite");
+N(x) :- x in Range(30);
+Even(x) distinct :- x == 0;
+Even(x) distinct :- Odds(y), N(x), x == y + 1;
+Odds(x) distinct :- Even(y), N(x), x == y + 1;
+Zeta(x) distinct :- x == 0;
+Zeta(x) distinct :- Yoda(y), N(x), x == y + 2;
+Yoda(x) distinct :- Zeta(y), N(x), x == y + 1;
+Out(m, k) :- m == Max{x :- Even(x)}, k == Max{x :- Yoda(x)};
+''', 'Out', 'recursion')
   add('recursion_deep', '''@Engine("sqlite");
 @Recursive(N, 25);
 N(0);
